@@ -38,9 +38,9 @@ func (Engine) Name() string    { return "cl" }
 func (Engine) Props() []string { return []string{"C01", "C03", "C07", "C08"} }
 func (Engine) Budget(tier, prop string) (int, int) {
 	if tier == "thorough" {
-		return 12000, 1700
+		return 40000, 1700
 	}
-	return 900, 170
+	return 4000, 170
 }
 func (Engine) Describe() simcore.Description {
 	return simcore.Description{
@@ -105,7 +105,7 @@ func (Engine) Generate(r *simcore.RNG, tier string, idx int) *simcore.Plan {
 		if r.Chance(0.15) {
 			a0 = amountArg(r, r.Intn(3))
 		}
-		switch r.Weighted([]int{20, 5, 10, 30, 6, 6, 3, 4, 12, 2, 1}) {
+		switch r.Weighted([]int{20, 5, 10, 30, 6, 6, 3, 4, 12, 2, 1, 4}) {
 		case 0:
 			st.Op = "pos"
 			st.A = []int64{r.Range(0, 4), r.Range(0, 2), r.Range(0, 7), r.Range(0, 40), r.Range(1, 40), a0[0], a0[1], a1[0], a1[1], int64(r.Intn(4))}
@@ -140,6 +140,11 @@ func (Engine) Generate(r *simcore.RNG, tier string, idx int) *simcore.Plan {
 		case 10:
 			st.Op = "pool"
 			st.A = []int64{r.Range(0, 4), r.Range(0, 2), r.Range(0, 3), r.Range(0, 8)}
+		case 11:
+			// two positions sharing a boundary tick end up with exactly equal liquidity: the tick's net liquidity is 0 while its gross is not
+			p.Steps = append(p.Steps, simcore.Step{Op: "pos", A: []int64{r.Range(0, 4), r.Range(0, 2), 6, r.Range(0, 40), r.Range(1, 40), a0[0], a0[1], a1[0], a1[1], 1}})
+			st.Op = "equalize"
+			st.A = []int64{r.Range(0, 63)}
 		}
 		if faults && r.Chance(0.15) && st.Op != "advance" && st.Op != "restart" {
 			if r.Chance(0.35) {
